@@ -102,12 +102,14 @@ def parent_agg(crate, cf):
     """(parent Fn, closure aggregate expression) of a closure"""
     pname = cf.name.rsplit('::{closure#', 1)[0]
     parent = crate.fns.get(pname)
-    if parent is None:
-        return None, None
-    for bi, si, st in parent.assigns():
-        rv = st['rv']
-        if rv['r'] == 'agg' and rv['kind'].get('k') == 'closure' and rv['kind']['path'] == cf.name:
-            return parent, parent.rvalue_expr(rv, bi)
+    cands = ([parent] if parent is not None else []) + [g for g in crate.fns.values() if g is not parent]
+    for g in cands:
+        for bi, si, st in g.assigns():
+            rv = st['rv']
+            if rv['r'] == 'agg' and rv['kind'].get('k') == 'closure' and rv['kind']['path'] == cf.name:
+                return g, g.rvalue_expr(rv, bi)
+        if g is parent and parent is not None and not getattr(crate, '_has_inlined', True):
+            break
     return parent, None
 
 
